@@ -266,12 +266,18 @@ def run_session(P, case):
     sent = []
     FakeSocket.log = lambda sock, data, addr: sent.append((sock, data, addr, vc.now, vc.k))
     links = [P.udp_link.UDPLink("127.0.0.1", 5800 + i, "0.0.0.0", 5700 + i) for i in range(case["nlinks"])]
-    socks = {id(l.sock): i for i, l in enumerate(links)}
+    # link churn (implementation-level scenarios only): links attached to / detached from the SAME list object while the clock
+    # runs, as Transceiver.power_event_handler does; spare links exist from the start so that their sockets are observed
+    churn = case.get("churn") or {}
+    spare = [P.udp_link.UDPLink("127.0.0.1", 5800 + i, "0.0.0.0", 5700 + i) for i in range(case["nlinks"], case["nlinks"] + 4)] if churn else []
+    socks = {id(l.sock): i for i, l in enumerate(links + spare)}
+    members = {"now": list(range(len(links))), "log": []}
     kw = {}
     if case["period"] is not None:
         kw["ind_period"] = case["period"]
     if case["start"] is not None:
         kw["clck_start"] = case["start"]
+    all_links = list(links)
     clk = cg.CLCKGen(links, **kw)
     clk._breaker.vc = vc
     calls = []
@@ -287,6 +293,16 @@ def run_session(P, case):
     def handler(fn):
         calls.append((fn, vc.now, vc.k))
         vc.now += vc.cur()[2]
+        for (what, li) in churn.get(vc.k, []):
+            obj = (all_links + spare)[li] if li < len(all_links) + len(spare) else None
+            cur_objs = clk.clck_links
+            if what == "add" and obj is not None and li not in members["now"]:
+                cur_objs.append(obj)
+                members["now"].append(li)
+            elif what == "del" and li in members["now"]:
+                cur_objs.remove(obj)
+                members["now"].remove(li)
+        members["log"].append((vc.k, list(members["now"])))
         if astop["on"] and vc.k == len(vc.script) - 1:
             # the other thread calls stop() while this handler is busy: stop() runs up to its join(), then the handler returns
             th2 = FakeThread.instances[-1]
@@ -378,6 +394,8 @@ def run_session(P, case):
         flat += [crashed, stop_over, vc.now, final_next, src if isinstance(src, int) else -1]
         struct.append(dict(t0=t0, obs=obs, crashed=crashed, exc=exc, stop_over=stop_over, end=vc.now, src=src,
                            running_before_stop=running_before_stop, script=script))
+    if churn:
+        struct[0]["members"] = list(members["log"])
     return flat, struct, list(vc.anomalies)
 
 
@@ -725,6 +743,30 @@ def run(ctx):
     impl, structs = {}, {}
     nticks = 0
     with Patched() as P:
+        # ---- links attached / detached while the clock runs (implementation-level: the model's link set is fixed per session)
+        for ci in range(6 if ctx.tier == "quick" else 60):
+            nl0 = rng.below(3)
+            per = rng.choice([1, 1, 2, 3])
+            n = rng.range(12, 30)
+            churn = {}
+            for _ in range(rng.range(2, 5)):
+                churn.setdefault(rng.below(n - 2), []).append((rng.choice(["add", "add", "del"]), rng.below(nl0 + 4)))
+            st0 = rng.choice([0, 5, H - 6])
+            ccase = dict(start=st0, period=per, nlinks=nl0, handler=True, runs=[(0, 0, [(0, 0, 10)] * n)], churn=churn, domain=True, pats=["churn"])
+            ctx.in_flight = ("churn", ci)
+            flat, st, an = run_session(P, ccase)
+            mem = dict(st[0].get("members", []))
+            cur = list(range(nl0))
+            for k, o in enumerate(st[0]["obs"]):
+                fn = (st0 + k) % H
+                want = sorted(cur) if fn % per == 0 else []      # the indication of tick k precedes the handler call of tick k
+                got = sorted(li for (li, data, addr, tm) in o["sends"])
+                if got != want:
+                    ctx.oracle_fail("clock indication of frame %d went to links %r, attached at that moment: %r (links were attached / detached while the clock was running)" % (fn, got, want),
+                                    dict(start=st0, period=per, initial_links=nl0, churn={str(a): b for a, b in churn.items()}, tick=k), key="c09-ind-links-churn", expected=want, observed=got)
+                    break
+                cur = mem.get(k, cur)
+            ctx.nontrivial(("churn", nl0, per, len(churn)))
         for k, case in enumerate(cases):
             ctx.in_flight = ("session", k)
             flat, st, an = run_session(P, case)
